@@ -121,6 +121,30 @@ class CompileGroup:
         self.secs += secs
         return rc, msgs, err
 
+    def probe_bin_raw(self, name: str, main_text: str, timeout=120):
+        """like probe_bin, but -> (built?, returncode, stdout, stderr-or-compiler-errors): nothing is an error here"""
+        build.prepare_root(self.root)
+        cdir = os.path.join(self.root, name)
+        os.makedirs(os.path.join(cdir, "src"), exist_ok=True)
+        write_if_changed(os.path.join(cdir, "Cargo.toml"),
+                         crate_manifest(name, {"enum-tools": dep_enum_tools()}, kind="bin"))
+        write_if_changed(os.path.join(cdir, "src", "main.rs"), main_text)
+        emit.emit_workspace(self.root, list(self.libs) + [name])
+        self._emit_libs()
+        rc, msgs, err = self._cargo([name], "build")
+        if rc != 0:
+            errs = build.compiler_errors(msgs)
+            if not errs:
+                raise Inconclusive("probe %s failed to build without diagnostics: %s" % (name, err[-1500:]))
+            return False, None, "", "\n".join(e["message"] for e in errs[:3])
+        exe = os.path.join(self.root, "target", "debug", name)
+        try:
+            p = subprocess.run([exe], capture_output=True, text=True, timeout=timeout,
+                               env=dict(os.environ, RUST_BACKTRACE="0"))
+        except subprocess.TimeoutExpired:
+            raise Inconclusive("probe %s timed out" % name)
+        return True, p.returncode, p.stdout, p.stderr
+
     def probe_bin(self, name: str, main_text: str, timeout=120) -> str:
         """build and run a small binary next to the group's crates (same target dir); -> its stdout.
         Used to *observe* a behaviour an expectation depends on where the documentation leaves it open."""
